@@ -472,9 +472,10 @@ def write_read_roundtrip_full : Prop :=
   ∀ z a mask force out, SpecZip.parse z = some a → contigFrom a 0 a.members = true →
     rewriteKeep z mask force = .ok out → SpecZip.valid out
 
-/-- what remains to be proved (NOT PROVED; checked dynamically on every run, rounds 2 and 3):
-    the same under `relicReadable` (which excludes the empty member with a 24-byte descriptor); the read
-    half it would build on is `read_agrees_spec_readable` (proved). -/
+/-- the same under `relicReadable` (which excludes the empty member with a 24-byte descriptor).  PROVED with one more
+    clause — every extra field at most 65507 bytes, `extraRoom` — as `write_read_roundtrip_readable_partial` /
+    `rewrite_roundtrip` (Props/C17_Write.lean); without that clause the statement fails for ≥ 4 GiB members
+    (`extraRoom_necessary`, F7g), so this form stays a `def`. -/
 def write_read_roundtrip_readable : Prop :=
   ∀ z a mask force out, SpecZip.parse z = some a → contigFrom a 0 a.members = true → relicReadable z →
     rewriteKeep z mask force = .ok out → SpecZip.valid out
